@@ -27,6 +27,27 @@ def gen_cases(tier, rng, n_random):
         for vs, d, u in oracles.all_admgs(n):
             for xs, ys in queries(vs):
                 yield {"nodes": vs, "directed": d, "undirected": u, "X": xs, "Y": ys, "seed": rng.randrange(1 << 30)}
+    for name, (vs, d, u) in oracles.TEXTBOOK.items():
+        for xs, ys in queries(vs):
+            if len(xs) <= 2 and len(ys) <= 2:
+                yield {"nodes": vs, "directed": d, "undirected": u, "X": xs, "Y": ys, "seed": rng.randrange(1 << 30), "name": name}
+    # the full space of 4-node ADMGs x queries is sampled uniformly (exhausted in the thorough tier)
+    four = None
+    if tier == "thorough":
+        for vs, d, u in oracles.all_admgs(4):
+            for xs, ys in queries(vs):
+                if rng.random() < 0.25:
+                    yield {"nodes": vs, "directed": d, "undirected": u, "X": xs, "Y": ys, "seed": rng.randrange(1 << 30)}
+    else:
+        vs4 = oracles.names(4)
+        pairs = [(a, b) for a in vs4 for b in vs4 if a < b]
+        for _ in range(n_random):
+            order = rng.sample(vs4, 4)
+            pos = {v: i for i, v in enumerate(order)}
+            d = [(a, b) if pos[a] < pos[b] else (b, a) for a, b in pairs if rng.random() < 0.5]
+            u = [(a, b) for a, b in pairs if rng.random() < 0.4]
+            xs, ys = rng.choice(list(queries(vs4)))
+            yield {"nodes": vs4, "directed": d, "undirected": u, "X": xs, "Y": ys, "seed": rng.randrange(1 << 30)}
     for _ in range(n_random):
         n = rng.choice([4, 4, 5, 5, 6])
         pu = rng.choice([0.15, 0.25, 0.4]) if n < 6 else 0.15
@@ -73,7 +94,18 @@ def run_case(c, which=("C01", "C02", "C06")):
     V = dsl.Variable
     vs, d, u = c["nodes"], c["directed"], c["undirected"]
     g = oracles.build(vs, d, u, random.Random(c["seed"]))
-    snap = (list(g.nodes()), sorted(map(str, g.directed.edges())), sorted(str(sorted(map(str, e))) for e in g.undirected.edges()))
+    if c["seed"] % 4 == 0:
+        # the same graph given as an NxMixedGraph wrapped around networkx graphs with plain string nodes
+        import networkx as nx
+        graphmod = concrete.y0mod("y0.graph")
+        dg, ug = nx.DiGraph(), nx.Graph()
+        dg.add_nodes_from(vs)
+        ug.add_nodes_from(vs)
+        dg.add_edges_from(d)
+        ug.add_edges_from(u)
+        g = graphmod.NxMixedGraph(directed=dg, undirected=ug)
+    snap = ([(type(n).__name__, str(n)) for n in g.nodes()], sorted(map(str, g.directed.edges())), sorted(str(sorted(map(str, e))) for e in g.undirected.edges()),
+            [(type(n).__name__, str(n)) for n in g.undirected.nodes()])
     X, Y = {V(x) for x in c["X"]}, {V(y) for y in c["Y"]}
     X0, Y0 = set(X), set(Y)
     out = {}
@@ -82,7 +114,8 @@ def run_case(c, which=("C01", "C02", "C06")):
     except Exception as e:
         out["C02"] = f"identify_outcomes raised {type(e).__name__}: {e}"
         return out
-    snap2 = (list(g.nodes()), sorted(map(str, g.directed.edges())), sorted(str(sorted(map(str, e))) for e in g.undirected.edges()))
+    snap2 = ([(type(n).__name__, str(n)) for n in g.nodes()], sorted(map(str, g.directed.edges())), sorted(str(sorted(map(str, e))) for e in g.undirected.edges()),
+             [(type(n).__name__, str(n)) for n in g.undirected.nodes()])
     if snap != snap2 or X != X0 or Y != Y0:
         out["C02"] = "the caller's graph or query sets were modified"
     truth = scm.identifiable(vs, d, u, c["X"], c["Y"])
